@@ -1,13 +1,13 @@
 import PilotaModel.Lemmas.IdlItem
 /-
   C15: constant values (`const_rt`, recursion through list and map literals).
-  Stage restriction: `ConstValue.supported` — no `double` literal anywhere in the value.
+  (`ConstValue.supported` was the stage restriction "no double literal"; it is now true of every value.)
 -/
 namespace Pilota.Idl
 
 mutual
 def ConstValue.supported : ConstValue → Bool
-  | .double _ => false
+  | .double _ => true
   | .list xs => ConstValue.supportedList xs
   | .map kvs => ConstValue.supportedPairs kvs
   | _ => true
@@ -24,6 +24,7 @@ def ConstValue.depth : ConstValue → Nat
   | .list xs => ConstValue.depthList xs + 1
   | .map kvs => ConstValue.depthPairs kvs + 1
   | .int n => if n < 0 then 1 else 0
+  | .double t => t.length
   | _ => 0
 def ConstValue.depthList : List ConstValue → Nat
   | [] => 0
@@ -93,82 +94,12 @@ theorem rConstPairs_slots : ∀ (kvs : List (ConstValue × ConstValue)) (l : Lay
     rw [rConstPairs_slots kvs]
     simp only [List.append_assoc]
 
-/-! ### what a constant needs of the text after it; how a constant starts -/
-
-def ConstFollow : ConstValue → List Char → Prop
-  | .string _, _ => True
-  | .list _, _ => True
-  | .map _, _ => True
-  | .path _, r => hdP (fun c => !isIdentChar c) r = true ∧ PathStop r
-  | _, r => Sep r
-
-theorem constFollow_general {c : ConstValue} {r : List Char} (h1 : c.endsOpen = true → Sep r) (h2 : PathStop r) :
-    ConstFollow c r := by
-  cases c with
-  | path p => exact ⟨(h1 rfl).noIdent, h2⟩
-  | string _ => trivial
-  | list _ => trivial
-  | map _ => trivial
-  | bool _ => exact h1 rfl
-  | int _ => exact h1 rfl
-  | double _ => exact h1 rfl
-
-/-- first character of a rendered constant (no doubles): a quote, a letter or `_`, a digit, `-`, `[`, `{` -/
-def isConstStart (c : Char) : Bool :=
-  c == '\'' || c == '"' || isIdentStart c || isDecDigit c || c == '-' || c == '[' || c == '{'
-
 theorem decDigits_head (n : Nat) : ∃ c cs, decDigits n = c :: cs ∧ isDecDigit c = true := by
   obtain ⟨h1, h2, _⟩ := decDigits_spec n
   cases h : decDigits n with
   | nil => exact absurd h h1
   | cons c cs => exact ⟨c, cs, rfl, h2 c (by simp [h])⟩
 
-theorem rConst_start {c : ConstValue} (hw : c.wf = true) (hs : c.supported = true) (l : Layout) (x : List Char) :
-    hdP isConstStart ((rConst c l).1 ++ x) = true ∧ (rConst c l).1 ≠ [] := by
-  cases c with
-  | bool b => cases b <;> exact ⟨by simp only [rConst, rLit_fst]; (show isConstStart _ = true); decide, by simp [rConst]⟩
-  | path p =>
-    simp only [ConstValue.wf, Bool.and_eq_true] at hw
-    obtain ⟨s, rest, hs', _, e, _⟩ := rPath_cons hw.1.1 l
-    obtain ⟨c0, cs, rfl, hc, _⟩ := identOk_cons hs'
-    simp only [rConst, e, List.append_assoc, List.cons_append]
-    exact ⟨by simp [isConstStart, hc], by simp⟩
-  | string t =>
-    simp only [ConstValue.wf] at hw
-    simp only [rConst]
-    rw [rLiteral_append]
-    refine ⟨?_, by simp [rLiteral]⟩
-    rcases (quoteFor_spec l.pop.1.flag hw).1 with e | e <;> rw [e] <;> (show isConstStart _ = true) <;> decide
-  | int n =>
-    simp only [rConst, rLit_fst, intText]
-    split
-    · exact ⟨by show isConstStart '-' = true; decide, by simp⟩
-    · obtain ⟨c0, cs, e, hc⟩ := decDigits_head n.toNat
-      rw [e]; exact ⟨by simp [isConstStart, hc], by simp⟩
-  | double t => simp [ConstValue.supported] at hs
-  | list xs => exact ⟨by simp only [rConst, rSeq_fst, rLit_fst, List.append_assoc]; (show isConstStart '[' = true); decide, by simp [rConst]⟩
-  | map kvs => exact ⟨by simp only [rConst, rSeq_fst, rLit_fst, List.append_assoc]; (show isConstStart '{' = true); decide, by simp [rConst]⟩
-
-theorem constStart_props {c : Char} (h : isConstStart c = true) :
-    notBlankStart c = true ∧ (!(c == ',' || c == ';')) = true ∧ (c != '.') = true ∧ (c != ':') = true ∧
-    (c != ']') = true ∧ (c != '}') = true := by
-  simp only [isConstStart, Bool.or_eq_true, beq_iff_eq] at h
-  rcases h with (((((h | h) | h) | h) | h) | h) | h
-  · subst h; decide
-  · subst h; decide
-  · refine ⟨identStart_NB h, identStart_noSep h, identStart_ne h (by decide), identStart_ne h (by decide),
-      identStart_ne h (by decide), identStart_ne h (by decide)⟩
-  · have hne : ∀ x : Char, isDecDigit x = false → (c != x) = true := by
-      intro x hx; simp only [bne_iff_ne, ne_eq]; intro e; subst e; rw [h] at hx; cases hx
-    refine ⟨?_, ?_, hne _ (by decide), hne _ (by decide), hne _ (by decide), hne _ (by decide)⟩
-    · cases hb : notBlankStart c with
-      | true => rfl
-      | false => rcases blankStart_cases hb with e | e | e | e | e | e <;> subst e <;> revert h <;> decide
-    · have h1 := hne ',' (by decide); have h2 := hne ';' (by decide)
-      simp only [bne_iff_ne, ne_eq] at h1 h2; simp [h1, h2]
-  · subst h; decide
-  · subst h; decide
-  · subst h; decide
 
 /-! ### arms of `ConstValue::parse` that fail by the first character -/
 
@@ -277,73 +208,5 @@ theorem int_err_hd (d : Nat) {r : List Char} (h0 : hdP (fun c => c != '-') r = t
   unfold IntConstant.parse
   rw [alt_cons_of_err (skip_of_err (tag_hd h0)), alt_cons_of_err (skip_of_err h0x)]
   simp [alt, mapRes, hd, PR.bind]
-
-/-! ### `const_rt` -/
-
-/-- what an element of a list / map literal needs of the text after its tail -/
-def ElemFollow (R : List Char) : Prop := NB R ∧ NoSepStart R ∧ hdP (fun c => c != '.') R = true
-
-theorem elemFollow_of_start {R : List Char} (h : hdP isConstStart R = true) : ElemFollow R :=
-  ⟨hdP_mono (fun _ hc => (constStart_props hc).1) h, hdP_mono (fun _ hc => (constStart_props hc).2.1) h,
-   hdP_mono (fun _ hc => (constStart_props hc).2.2.1) h⟩
-
-theorem constFollow_tail {x : ConstValue} (last : Bool) (l : Layout) {R : List Char} (hR : ElemFollow R)
-    (hlast : last = true → Sep R) : ConstFollow x ((rTail x.endsOpen last l).1 ++ R) := by
-  apply constFollow_general
-  · intro ho
-    apply tail_sep
-    cases last with
-    | true => exact Or.inr (hlast rfl)
-    | false => exact Or.inl (by simp [ho])
-  · exact tail_pathStop _ _ _ hR.1 hR.2.2
-
-/-- one element of a list literal -/
-theorem constElem_step {d : Nat} {x : ConstValue} (hw : x.wf = true) (hs : x.supported = true)
-    (hrt : ∀ l r, ConstFollow x r → ConstValue.parse d ((rConst x l).1 ++ r) = .ok x r)
-    (last : Bool) (l : Layout) {bl R : List Char} (hbl : BT bl) (hR : ElemFollow R) (hlast : last = true → Sep R) :
-    (andThen (opt blank) fun _ => andThen (ConstValue.parse d) fun e => andThen (opt blank) fun _ =>
-      andThen (opt listSeparator) fun _ => ret e) (bl ++ ((rConstElem x last l).1 ++ R)) = .ok x R := by
-  simp only [rConstElem, rSeq_fst, rSeq_snd, List.append_assoc]
-  have hnb : NB ((rConst x l).1 ++ ((rTail x.endsOpen last (rConst x l).2).1 ++ R)) :=
-    hdP_mono (fun _ hc => (constStart_props hc).1) (rConst_start hw hs l _).1
-  rw [andThen_optBlank hbl hnb, andThen_of_ok (hrt _ _ (constFollow_tail last _ hR hlast)),
-    tail_rt _ _ _ hR.1 hR.2.1]
-  rfl
-
-/-- one `key : value` entry of a map literal -/
-theorem constPair_step {d : Nat} {kv : ConstValue × ConstValue} (hwk : kv.1.wf = true) (hsk : kv.1.supported = true)
-    (hwv : kv.2.wf = true) (hsv : kv.2.supported = true)
-    (hrtk : ∀ l r, ConstFollow kv.1 r → ConstValue.parse d ((rConst kv.1 l).1 ++ r) = .ok kv.1 r)
-    (hrtv : ∀ l r, ConstFollow kv.2 r → ConstValue.parse d ((rConst kv.2 l).1 ++ r) = .ok kv.2 r)
-    (last : Bool) (l : Layout) {bl R : List Char} (hbl : BT bl) (hR : ElemFollow R) (hlast : last = true → Sep R) :
-    (andThen (opt blank) fun _ => andThen (ConstValue.parse d) fun k => andThen (opt blank) fun _ =>
-      andThen (tag [':']) fun _ => andThen (opt blank) fun _ => andThen (ConstValue.parse d) fun v =>
-      andThen (opt blank) fun _ => andThen (opt listSeparator) fun _ => ret (k, v))
-      (bl ++ ((rConstPair kv last l).1 ++ R)) = .ok kv R := by
-  simp only [rConstPair, rSeq_fst, rSeq_snd, rLit_fst, rLit_snd, List.append_assoc]
-  have hnbk : ∀ y, NB ((rConst kv.1 l).1 ++ y) := fun y =>
-    hdP_mono (fun _ hc => (constStart_props hc).1) (rConst_start hwk hsk l y).1
-  have hnbv : ∀ l' y, NB ((rConst kv.2 l').1 ++ y) := fun l' y =>
-    hdP_mono (fun _ hc => (constStart_props hc).1) (rConst_start hwv hsv l' y).1
-  have hfk : ∀ y, ConstFollow kv.1 ((rB0 (rConst kv.1 l).2).1 ++ ([':'] ++ y)) := by
-    intro y
-    apply constFollow_general
-    · intro _; exact (rB0_BT _).sep_append (Or.inr (by show isSepChar ':' = true; decide))
-    · exact pathStop_of (rB0_BT _) (by show notBlankStart ':' = true; decide) (by show (':' != '.') = true; decide)
-  rw [andThen_optBlank hbl (hnbk _), andThen_of_ok (hrtk _ _ (hfk _)),
-    andThen_optBlank (rB0_BT _) (by show notBlankStart ':' = true; decide), andThen_of_ok (tag_append _ _),
-    andThen_optBlank (rB0_BT _) (hnbv _ _), andThen_of_ok (hrtv _ _ (constFollow_tail last _ hR hlast)),
-    tail_rt _ _ _ hR.1 hR.2.1]
-  rfl
-
-theorem constArms_err_bracket (d : Nat) (c : Char) (x : List Char) (hc : c = ']' ∨ c = '}' ∨ c = '[' ∨ c = '{') :
-    Literal.parse (c :: x) = .err ∧ (∀ kw v, kw = cs!"true" ∨ kw = cs!"false" → keyword (α := ConstValue) kw v (c :: x) = .err) ∧
-    Path.parse (c :: x) = .err ∧ DoubleConstant.parse (d + 1) (c :: x) = .err ∧ IntConstant.parse (d + 1) (c :: x) = .err := by
-  refine ⟨literal_err_hd ?_, ?_, path_err_hd ?_ (by simp), double_err_hd (d + 1) ?_ ?_ ?_, int_err_hd d ?_ ?_⟩
-  · rcases hc with h | h | h | h <;> subst h <;> rw [hdP_cons] <;> decide
-  · intro kw v hk
-    rcases hk with h | h <;> subst h <;> apply andThen_of_err <;> apply tag_cons_ne <;>
-      (rcases hc with h | h | h | h <;> subst h <;> decide)
-  all_goals rcases hc with h | h | h | h <;> subst h <;> rw [hdP_cons] <;> decide
 
 end Pilota.Idl
